@@ -38,6 +38,48 @@ CHECKS = {
             "grid; all pyramid levels share the cube extent; internal allclose assertions hold as exact identities. Does not decide: "
             "assertion failures caused by floating-point rounding; arguments outside the enumerated set.",
             "DESIGN.md 4/C03"),
+    "C04": (True, "E5(T13)+E7+E4",
+            "abstract interpretation of the ImageBatch/Image spatial methods (tensor function + Grid method + re-wrap) over a polynomial-ring "
+            "domain with symbolic voxels and per-image symbolic grids; pair/delegate forwarding rules; certain-crash lint",
+            "Decides for a batch of 2 images with distinct oriented grids (D in {2,3}, both align_corners defaults), for enumerated arguments: "
+            "crop/pad/center_crop/center_pad/region_of_interest/narrow return one grid per image whose size is the data shape, and every output "
+            "voxel holds exactly the input voxel that lies at the same world position according to the two grids (pad value outside); avg_pool "
+            "keeps a world-linear ramp; resize/downsample/upsample hand torch the align_corners flag under which the grid was derived; "
+            "sample(grid|grids) hands torch.grid_sample, per image, the target coordinates mapped target-cube -> world -> own-source-cube. "
+            "Plus: order-free options are forwarded identically to tensor and grid paths; Image/FlowField delegates forward every parameter. "
+            "Does not decide: interpolated values (torch kernels), arbitrary compositions of operations.",
+            "DESIGN.md 4/C04"),
+    "C08": (True, "E5(T2,T6,T7)+E4",
+            "abstract interpretation of the rotation / homogeneous-transform tables over a polynomial ring modulo sin^2+cos^2=1 and unit-norm relations",
+            "Decides as polynomial identities: euler_rotation_matrix equals the product of elementary rotations for all 12 orders in letter, "
+            "lower-case and 'Rz o Rx o Rz' notation (closed forms and generic branch, homogeneous or not), is a proper rotation; "
+            "euler_rotation_angles recovers angle i from R (atan2/acos arguments); homogeneous_matmul/hmm for all 9 operand-form pairs x batch "
+            "shapes (none, 1, N) equals apply-one-after-the-other; as_homogeneous_matrix/homogeneous_matrix keep the map (and copy); "
+            "homogeneous_transform applies A p + t and drops exactly t for vectors; quaternion <-> matrix tables ((w,x,y,z), all four branches). "
+            "Does not decide: atan2/acos branch cuts, angle-axis conversions (half-angle trigonometry), float accuracy.",
+            "DESIGN.md 4/C08"),
+    "C11": (True, "E5(T11x)",
+            "abstract interpretation of expv / warp_image / grid_sample / ExpFlow with torch.grid_sample left uninterpreted and every call recorded",
+            "Decides (D in {2,3}, both conventions, steps in {0,1,3}, several scales, inverse flag): exactly `steps` sampling calls; call k samples "
+            "the running field d_k at identity_coords(convention) + d_k with torch's align_corners equal to the given flag and border padding; "
+            "d_0 = v (+/-scale)/2^steps; d_{k+1} = d_k + sample_k; steps=0 returns the scaled input; inverse == negated scale; ExpFlow forwards "
+            "scale/steps/align_corners and negates exactly once for forward(inverse=True), inverse(), inv (on a copy). Does not decide: equality "
+            "with (I+H/2^k)^(2^k), convergence, interpolation error (torch kernel).",
+            "DESIGN.md 4/C11"),
+    "C16": (True, "E5(T16)+E7+E4",
+            "abstract interpretation of the loss functions over a polynomial-ring domain with symbolic voxels/masks; wrapper-forwarding rules; crash lint",
+            "Decides for mse/ssd/mae/l1/huber/smooth_l1 (symbolic inputs, masks of all documented broadcast shapes with 0, 1 and symbolic weights): "
+            "'sum'/'mean' are the sum/mean of 'none'; masked mean = sum(none*mask)/sum(expanded mask); identical inputs give 0; norm divides; "
+            "symmetry. For Dice/Tversky (idempotent binary atoms): score 1 / loss 0 on identical inputs for every reduction, reductions, "
+            "loss = 1 - score, Dice symmetry, Tversky(1/2,1/2) = Dice, alpha<->FP / beta<->FN roles and defaults, weight shapes. Module wrappers "
+            "forward every stored option. Does not decide: ncc/lcc/mi invariances, ranges, histogram behaviour.",
+            "DESIGN.md 4/C16"),
+    "C17": (True, "E7+E4",
+            "wrapper/constructor forwarding rules and certain-crash lint over the regulariser wrappers and functionals",
+            "Decides: every flow-regulariser module forwards each stored constructor option to the functional it wraps and each constructor "
+            "forwards shared parameters to its base; no call in the regulariser functionals is certain to raise (signature binding, calls of "
+            "non-callables). Does not decide (yet): regulariser weights, null spaces, elastic-constant identities, unit conversion.",
+            "DESIGN.md 4/C17"),
 }
 
 NOT_BUILT_REASON = "static check for this property is designed (DESIGN.md section 4) but not yet built in this revision"
